@@ -56,7 +56,7 @@ def run (s : State) : List Label → Option State
   | [] => some s
   | l :: ls => match next s l with | some s' => run s' ls | none => none
 
-theorem reach_run {n s ls s'} (h : Reachable n s) (hr : run s ls = some s') : Reachable n s' := by
+theorem reach_run {inits n s ls s'} (h : Reachable inits n s) (hr : run s ls = some s') : Reachable inits n s' := by
   induction ls generalizing s with
   | nil => simp [run] at hr; subst hr; exact h
   | cons l ls ih =>
